@@ -1,6 +1,80 @@
-/-! Driver entry for property C07 (stub: not implemented yet). -/
-namespace HeartwoodModel.Driver.C07
+import HeartwoodModel.Model.Issue
+import HeartwoodModel.Driver.Util
+import HeartwoodModel.Driver.C08
+/-!
+Driver entry for C07.
 
-def run (_args : List String) : String := "unimplemented"
+Cases: `patch …` (syntax and output of `Driver/C08.lean`, whose wire helpers are reused) or
+`issue <docs> <order> <op0> <op1> …` with `op = author:doc:ts:tips:act|act|…` and issue actions
+`as,<actors+>` `ed,<title>,<kind>` `lc,o|s|c` `lb,<labels+>` `cm,<body>,<replyTo|->` `ce,<id>,<body>`
+`cr,<id>` `ca,<id>`.
+Output: `init-err` / `init-panic` / `bad-order`, or
+`r=<o|e|p per applied op>;t=<title>;st=open|closed.s|closed.o;lb=…;as=…;cm=<thread>`.
+-/
+namespace HeartwoodModel.Driver.C07
+open HeartwoodModel.Cob HeartwoodModel.Issue HeartwoodModel.Driver.Util HeartwoodModel.Driver.C08
+
+def parseAction (s : String) : Option Action :=
+  match splitOn s ',' with
+  | ["as", xs] => do some (.assign (← plusNats? xs))
+  | ["ed", t, k] => do some (.edit (← nat? t) (← nat? k))
+  | ["lc", l] =>
+    if l == "o" then some (.lifecycle .opened) else if l == "s" then some (.lifecycle (.closed true))
+    else if l == "c" then some (.lifecycle (.closed false)) else none
+  | ["lb", ls] => do some (.label (← plusNats? ls))
+  | ["cm", b, rt] => do some (.comment (← nat? b) (← optNat? rt))
+  | ["ce", c, b] => do some (.commentEdit (← nat? c) (← nat? b))
+  | ["cr", c] => do some (.commentRedact (← nat? c))
+  | ["ca", c] => do some (.commentReact (← nat? c))
+  | _ => none
+
+def showIState : IState → String
+  | .opened => "open"
+  | .closed true => "closed.s"
+  | .closed false => "closed.o"
+
+def showIssue (i : Issue) : String :=
+  s!"t={i.title};st={showIState i.state};lb={showList "+" (i.labels.map toString)};" ++
+  s!"as={showList "+" (i.assignees.map toString)};cm={showThread "+" "~" i.thread}"
+
+def toOp (i : Nat) (w : WireOp Action) : Op :=
+  { id := i, author := w.author, doc := w.doc, actions := w.actions }
+
+def evalOrder (ops : List (WireOp Action)) : Issue → List Nat → List String → List Bool →
+    Option (Issue × List String × List Bool)
+  | s, [], rs, fs => some (s, rs.reverse, fs.reverse)
+  | s, i :: rest, rs, fs =>
+    match ops[i]? with
+    | none => none
+    | some w =>
+      let r := op s (toOp i w)
+      evalOrder ops (step s (toOp i w)) rest (showRes r :: rs) ((match r with | .ok _ => true | _ => false) :: fs)
+
+def runIssue (args : List String) : String :=
+  match args with
+  | docs :: order :: ops =>
+    match parseDocs docs, nats? order with
+    | some docs, some order =>
+      match ops.mapM (parseWireOp parseAction docs) with
+      | some (root :: rest) =>
+        let all := root :: rest
+        match fromRoot (toOp 0 root) with
+        | .error .panic => "init-panic"
+        | .error _ => "init-err"
+        | .ok i0 =>
+          match evalOrder all i0 order [] [] with
+          | none => "bad-op"
+          | some (i, rs, fs) =>
+            if orderOk (all.map (·.tips)) order fs then s!"r={dash (joinWith "" rs)};{showIssue i}"
+            else "bad-order"
+      | _ => "bad-op"
+    | _, _ => "bad-op"
+  | _ => "bad-op"
+
+def run (args : List String) : String :=
+  match args with
+  | "patch" :: rest => runPatch rest
+  | "issue" :: rest => runIssue rest
+  | _ => "bad-op"
 
 end HeartwoodModel.Driver.C07
